@@ -180,11 +180,9 @@ def readPara (s : Str) : Except Err Para :=
 
 /-! ### printer (lossy.rs:125-159) -/
 
-/-- `Display for Field`: more than one `lines()` piece → `Name:` + ` line\n` per line -/
+/-- `Display for Field`: `Name:` + ` line\n` for every piece of `value.split('\n')` -/
 def printField (f : Field) : Str :=
-  let ls := Text.lines f.2
-  if ls.length > 1 then f.1 ++ [':'] ++ (ls.map fun l => ' ' :: l ++ ['\n']).flatten
-  else f.1 ++ ':' :: ' ' :: f.2 ++ ['\n']
+  f.1 ++ ':' :: ((Text.splitOn '\n' f.2).map fun l => ' ' :: l ++ ['\n']).flatten
 
 def printPara (p : Para) : Str := (p.map printField).flatten
 
